@@ -21,8 +21,16 @@ import (
 // character): a key file moved between look-alike identities must fail to load as well.
 const Twin = kslab.Alpha + " "
 
+// LongA / LongB are two long identities (120 characters) that differ in their last character only:
+// the binding must cover the whole identity, not a prefix of it.
+var (
+	LongA = strings.Repeat("billing-service-production-", 4) + "eu-west-1-ra"
+	LongB = strings.Repeat("billing-service-production-", 4) + "eu-west-1-rb"
+)
+
 var allSlots = append(kslab.Slots(kslab.AllKinds, []string{kslab.Alpha, kslab.Bravo}),
-	kslab.Slot{Kind: kslab.StoragePair, Client: Twin}, kslab.Slot{Kind: kslab.StorageSym, Client: Twin}, kslab.Slot{Kind: kslab.SearchHMAC, Client: Twin})
+	kslab.Slot{Kind: kslab.StoragePair, Client: Twin}, kslab.Slot{Kind: kslab.StorageSym, Client: Twin}, kslab.Slot{Kind: kslab.SearchHMAC, Client: Twin},
+	kslab.Slot{Kind: kslab.StorageSym, Client: LongA}, kslab.Slot{Kind: kslab.StorageSym, Client: LongB})
 
 func genAll(times int) (h []kslab.Op) {
 	for i := 0; i < times; i++ {
@@ -88,7 +96,7 @@ func classifyV1(rel string) (sl kslab.Slot, part string, hist, ok bool) {
 	case filesystem.SecureLogKeyFilename:
 		return kslab.Slot{Kind: kslab.AuditLog}, part, hist, true
 	}
-	for _, c := range []string{kslab.Alpha, kslab.Bravo, Twin} {
+	for _, c := range []string{kslab.Alpha, kslab.Bravo, Twin, LongA, LongB} {
 		switch name {
 		case c + "_storage":
 			return kslab.Slot{Kind: kslab.StoragePair, Client: c}, part, hist, true
